@@ -375,7 +375,22 @@ func (c *walkSem) listOf(e *Engine, st *State, x ast.Expr) string {
 		return encodeEntries(all)
 	case *ast.CallExpr:
 		if IsBuiltinCall(info, v, "make") {
-			return listEmpty
+			if len(v.Args) < 2 {
+				return listEmpty
+			}
+			n, isC := constInt(info, v.Args[1])
+			switch {
+			case isC && n == 0:
+				return listEmpty
+			case isC && n >= 1 && n <= 8:
+				// n zero elements, to be filled in by index (stack := make([]Node, 1, hint); stack[0] = root)
+				var zs []pushEntry
+				for i := int64(0); i < n; i++ {
+					zs = append(zs, pushEntry{key: "zero#" + strconv.Itoa(int(i)), kind: "zero", at: strconv.Itoa(int(v.Pos()))})
+				}
+				return encodeEntries(zs)
+			}
+			return listUnknown
 		}
 		if IsBuiltinCall(info, v, "append") && len(v.Args) >= 1 {
 			all, known := decodeEntries(c.listOf(e, st, v.Args[0]))
@@ -495,6 +510,37 @@ func (c *walkSem) PostAssign(e *Engine, st *State, lhs, rhs []ast.Expr, stmt ast
 		if _, isDecl := stmt.(*ast.DeclStmt); isDecl {
 			for i := range lhs {
 				vals[i], have[i] = listEmpty, true // var kids []Node
+			}
+		}
+	}
+	// L[i] = v: fills in a zero element of a list made with a length; any other store into an element of a tracked
+	// list makes its contents unknown
+	if len(rhs) == len(lhs) {
+		for i, l := range lhs {
+			ix, isIx := ast.Unparen(l).(*ast.IndexExpr)
+			if !isIx {
+				continue
+			}
+			lk := c.listKey(e, ix.X)
+			if lk == "" {
+				continue
+			}
+			if _, tracked := out.ext[lk]; !tracked {
+				continue
+			}
+			es, known := decodeEntries(out.Ext(lk))
+			idx, isC := constInt(info, ix.Index)
+			filled := false
+			if known && isC && idx >= 0 && int(idx) < len(es) && strings.HasPrefix(es[idx].key, "zero#") {
+				if one, ok := c.entriesOf(e, st, rhs[i]); ok && len(one) == 1 {
+					ns := append([]pushEntry{}, es...)
+					ns[idx] = one[0]
+					out = out.WithExt(lk, encodeEntries(ns))
+					filled = true
+				}
+			}
+			if !filled {
+				out = out.WithExt(lk, listUnknown)
 			}
 		}
 	}
